@@ -1977,6 +1977,44 @@ class SymBytesOfInt:
         return SymInt(e, view)
 
 
+class SymBytes(bytes):
+    """a python `bytes` object of known length whose content is unknown: content = big-endian
+    bytes of the symbolic int `sym` (0 <= sym < 2^(8*len)).  It is a real bytes instance (so that
+    isinstance(x, bytes), len(x) and truthiness are the native ones); every native operation that
+    would look at the content raises EngineError instead of silently using the placeholder."""
+
+    def __new__(cls, length, sym):
+        o = bytes.__new__(cls, b"\0" * length)
+        o.sym = sym
+        return o
+
+    def _leak(self, *a, **k):
+        raise EngineError("content of a symbolic bytes object used by native code")
+
+    __eq__ = __ne__ = __lt__ = __le__ = __gt__ = __ge__ = _leak
+    __hash__ = __getitem__ = __iter__ = __contains__ = __add__ = __radd__ = __mul__ = _leak
+    hex = decode = startswith = endswith = find = index = count = split = strip = lstrip = rstrip = ljust = rjust = _leak
+
+    def __repr__(self):
+        return f"SymBytes(len={len(self)})"
+
+
+def _ext_int_from_bytes(interp, b, byteorder="big", *, signed=False):
+    if type(b) is SymBytes:
+        if byteorder != "big" or signed:
+            raise Unmodelled("int.from_bytes on symbolic bytes: only big-endian unsigned")
+        return b.sym
+    return int.from_bytes(b, byteorder, signed=signed)
+
+
+def _z3_BoolVal(interp, v, ctx=None):
+    if type(v) is SymBool:
+        return v.b
+    if type(v) is SymInt:
+        raise Unmodelled("BoolVal of a symbolic int")
+    return z3.BoolVal(v)
+
+
 # --------------------------------------------------------------------------------------
 # native callables that may receive symbolic values (they only store them)
 
@@ -2330,6 +2368,8 @@ DEFAULT_EXTERNALS = {
     getattr: _ext_getattr,
     setattr: _ext_setattr,
     z3.BitVecVal: _z3_BitVecVal,
+    z3.BoolVal: _z3_BoolVal,
+    int.from_bytes: _ext_int_from_bytes,
     z3.ULT: _z3_binary(z3.ULT),
     z3.ULE: _z3_binary(z3.ULE),
     z3.UGT: _z3_binary(z3.UGT),
